@@ -19,6 +19,7 @@ import re
 from core import AbsPaths, norm, _as_int
 
 NONE = ("variant", "None", ())
+ITERS = ("iterv", "enum", "arr", "flat", "fromfn", "mapped", "filtered")
 
 
 def some(v):
@@ -72,18 +73,41 @@ def _family(elem):
     return None
 
 
+def _const_value(ev, v):
+    """The value of a crate-local `const` / `static` item (an array of header names, ...): its initialiser evaluated abstractly."""
+    if v is None or v[0] != "const" or not isinstance(v[1], str):
+        return v
+    facts = ev.fn.facts
+    body = facts.fns.get(v[1])
+    if body is None or not str(body.d.get("kind")).startswith(("Const", "Static", "AssocConst")):
+        return v
+    if not hasattr(facts, "_const_values"):
+        facts._const_values = {}
+    if v[1] not in facts._const_values:
+        try:
+            outs = {x for (x, _) in AbsPaths(body, limit=2000, oracles=ev.oracle_specs, raw_oracles=ev.raw_specs).outcomes(state={})}
+            facts._const_values[v[1]] = outs.pop() if len(outs) == 1 else None
+        except AbsPaths.Undecided:
+            facts._const_values[v[1]] = None
+    return facts._const_values[v[1]] or v
+
+
 def o_iter(ev, st, t, site):
-    lid, lst = _list_of(st, _arg(ev, st, t, 0))
+    a = _arg(ev, st, t, 0)
+    lid, lst = _list_of(st, a)
     if lid is None:
+        v = _const_value(ev, _deref(st, a))
+        if v is not None and v[0] == "variant" and v[1] == "[]":
+            return _set_dest(st, t, ("arr", tuple(("refval", x) for _, x in v[2]), 0))
         return False
     return _set_dest(st, t, ("iterv", lid, 0))
 
 
 def o_into_iter(ev, st, t, site):
-    v = _deref(st, _arg(ev, st, t, 0))
+    v = _const_value(ev, _deref(st, _arg(ev, st, t, 0)))
     if v is None:
         return False
-    if v[0] in ("iterv", "enum", "arr", "flat", "fromfn", "mapped"):
+    if v[0] in ITERS:
         return _set_dest(st, t, v)
     if v[0] == "seq":
         return _set_dest(st, t, ("iterv", v[1], 0))
@@ -144,6 +168,20 @@ def _step(ev, st, it):
         if r is None:
             return False, it
         return r, ("mapped", inner, it[2])
+    if it[0] == "filtered":
+        cur = it[1]
+        for _ in range(64):
+            item, cur = _step(ev, st, cur)
+            if item is False:
+                return False, it
+            if item is None:
+                return None, ("filtered", cur, it[2])
+            r = _call_closure(ev, st, it[2], [("refval", item)])
+            if r is None or r[0] != "const" or r[1] not in ("true", "false"):
+                return False, it
+            if r[1] == "true":
+                return item, ("filtered", cur, it[2])
+        return False, it
     if it[0] == "flat":
         cur = it[1]
         while True:
@@ -166,7 +204,7 @@ def o_next(ev, st, t, site):
     if raw is None or raw[0] not in ("refmut", "ref"):
         return False
     it = st.get(raw[1])
-    if it is None or it[0] not in ("iterv", "enum", "arr", "flat", "fromfn", "mapped"):
+    if it is None or it[0] not in ITERS:
         return False
     item, new = _step(ev, st, it)
     if item is False:
@@ -377,7 +415,7 @@ def o_extend(ev, st, t, site):
         it = ("iterv", it[1], 0)
     elif it[0] == "variant" and it[1] == "[]":
         it = ("arr", tuple(x for _, x in it[2]), 0)
-    if it[0] not in ("iterv", "enum", "arr", "flat", "fromfn", "mapped"):
+    if it[0] not in ITERS:
         return False
     for _ in range(64):
         item, it = _step(ev, st, it)
@@ -387,6 +425,88 @@ def o_extend(ev, st, t, site):
             return _set_dest(st, t, tup())
         _, lst = _list_of(st, ("seq", lid))
         st[-lid] = ("list", tuple(lst + [_deref(st, item) if item[0] in ("ref", "refmut") else item]))
+    return False
+
+
+def _iter_arg(ev, st, t):
+    raw = _arg(ev, st, t, 0)
+    it = _const_value(ev, _deref(st, raw))
+    if it is not None and it[0] == "seq":
+        it = ("iterv", it[1], 0)
+    if it is not None and it[0] == "variant" and it[1] == "[]":
+        it = ("arr", tuple(x for _, x in it[2]), 0)
+    return raw, (it if it is not None and it[0] in ITERS else None)
+
+
+def o_filter(ev, st, t, site):
+    raw, it = _iter_arg(ev, st, t)
+    clo = _arg(ev, st, t, 1)
+    if it is None or clo is None:
+        return False
+    return _set_dest(st, t, ("filtered", it, clo))
+
+
+def _fold_bool(ev, st, t, stop_on):
+    """`any` (stop_on = true) / `all` (stop_on = false): short-circuiting, the iterator is left where the scan stopped."""
+    raw, it = _iter_arg(ev, st, t)
+    clo = _arg(ev, st, t, 1)
+    if it is None or clo is None:
+        return False
+    for _ in range(64):
+        item, it = _step(ev, st, it)
+        if item is False:
+            return False
+        if item is None:
+            break
+        r = _call_closure(ev, st, clo, [item])
+        if r is None or r[0] != "const" or r[1] not in ("true", "false"):
+            return False
+        if (r[1] == "true") == stop_on:
+            if raw is not None and raw[0] in ("ref", "refmut"):
+                st[raw[1]] = it
+            return _set_dest(st, t, ("const", "true" if stop_on else "false"))
+    else:
+        return False
+    if raw is not None and raw[0] in ("ref", "refmut"):
+        st[raw[1]] = it
+    return _set_dest(st, t, ("const", "false" if stop_on else "true"))
+
+
+def o_any(ev, st, t, site):
+    return _fold_bool(ev, st, t, True)
+
+
+def o_all(ev, st, t, site):
+    return _fold_bool(ev, st, t, False)
+
+
+def o_for_each(ev, st, t, site):
+    raw, it = _iter_arg(ev, st, t)
+    clo = _arg(ev, st, t, 1)
+    if it is None or clo is None:
+        return False
+    for _ in range(64):
+        item, it = _step(ev, st, it)
+        if item is False:
+            return False
+        if item is None:
+            return _set_dest(st, t, tup())
+        _call_closure(ev, st, clo, [item])
+    return False
+
+
+def o_count(ev, st, t, site):
+    raw, it = _iter_arg(ev, st, t)
+    if it is None:
+        return False
+    n = 0
+    for _ in range(64):
+        item, it = _step(ev, st, it)
+        if item is False:
+            return False
+        if item is None:
+            return _set_dest(st, t, ("const", str(n)))
+        n += 1
     return False
 
 
@@ -421,6 +541,11 @@ RAW_ORACLES = [
     (r"Iterator.*::flatten$", o_flatten),
     (r"Iterator.*::next$", o_next),
     (r"Iterator.*::position$", o_position),
+    (r"Iterator.*::filter$", o_filter),
+    (r"Iterator.*::any$", o_any),
+    (r"Iterator.*::all$", o_all),
+    (r"Iterator.*::for_each$", o_for_each),
+    (r"Iterator.*::count$", o_count),
     (r"IpVersionExt.*::version$|dns::.*::version$", o_version),
     (r"SocketAddr::is_ipv[46]$|IpAddr::is_ipv[46]$", o_is_ipv),
     (r"VecDeque.*::remove$|Vec.*::remove$", o_remove),
